@@ -7,7 +7,8 @@ Supported subset (anything else fails loudly; the check then reports that the ti
   statements  docstring | Name = expr | out[..., i] = expr (collected, in order) | out = np.empty(...) (ignored)
               | return expr | return out
   slices      selected `name = expr` assignments of a larger function, in order (the value is the last one)
-  expr        Name | int / float literal (exact rational) | np.pi | + - * / | ** non-negative int literal | unary -
+  expr        Name | int / float literal (exact rational) | np.pi | + - * / | % positive literal | ** non-negative int literal | unary -
+              | np.arctan2(y, x) (= Complex.arg ⟨x, y⟩)
               | np.sqrt/tanh/sinh/exp/log/cos/sin(expr) | np.where(a > b, x, y) | atleast_1d(x) (identity)
               | call of another translated function | one whitelisted attribute (air.vonkarman_constant)
 """
@@ -41,7 +42,15 @@ TARGETS = [
 SLICES = [
     ("wavephysics/windestimate.py", "friction_velocity", "friction_velocity_estimate",
      ["e", "grav", "directional_spreading_constant", "beta"], ["emean", "friction_velocity_estimate"]),
+    ("wavephysics/windestimate.py", "friction_velocity", "tail_direction", ["a1", "b1"], ["direction"]),
+    ("wavephysics/windestimate.py", "estimate_u10_from_spectrum", "meteorological_direction", ["direction"], ["@direction"]),
+    ("wavephysics/windestimate.py", "estimate_u10_from_spectrum", "u10_loglaw", ["friction_velocity", "vonkarman_constant", "z0"], ["{u10}"]),
 ]
+# attribute / subscript spellings inside the slices -> argument names
+attrs_of = {
+    "meteorological_direction": {'dataset["direction"]': "direction"},
+    "u10_loglaw": {"dataset.friction_velocity": "friction_velocity"},
+}
 FUNCS = {"sqrt": "Real.sqrt", "tanh": "Real.tanh", "sinh": "Real.sinh", "exp": "Real.exp", "log": "Real.log",
          "cos": "Real.cos", "sin": "Real.sin"}
 
@@ -80,6 +89,11 @@ class Tr:
                 if not (isinstance(e.right, ast.Constant) and isinstance(e.right.value, int) and e.right.value >= 0):
                     raise Unsupported("** by something that is not a non-negative int literal")
                 return f"({self.expr(e.left)} ^ {e.right.value})"
+            if isinstance(e.op, ast.Mod):
+                if not (isinstance(e.right, ast.Constant) and isinstance(e.right.value, (int, float)) and e.right.value > 0):
+                    raise Unsupported("% by something that is not a positive literal")
+                # Python / numpy float modulo by a positive number: x - p * floor(x / p)
+                return f"({self.expr(e.left)} - {lit(e.right.value)} * (⌊{self.expr(e.left)} / {lit(e.right.value)}⌋ : ℝ))"
             op = {ast.Add: "+", ast.Sub: "-", ast.Mult: "*", ast.Div: "/"}.get(type(e.op))
             if op is None:
                 raise Unsupported(ast.dump(e.op))
@@ -93,6 +107,8 @@ class Tr:
             name = ast.unparse(e.func)
             if name.startswith("np.") and name[3:] in FUNCS and len(e.args) == 1 and not e.keywords:
                 return f"({FUNCS[name[3:]]} {self.expr(e.args[0])})"
+            if name == "np.arctan2" and len(e.args) == 2 and not e.keywords:
+                return f"(Complex.arg ⟨{self.expr(e.args[1])}, {self.expr(e.args[0])}⟩)"
             if name == "np.where" and len(e.args) == 3:
                 return f"(if {self.expr(e.args[0])} then {self.expr(e.args[1])} else {self.expr(e.args[2])})"
             if name == "atleast_1d" and len(e.args) == 1:
@@ -155,6 +171,8 @@ def translate():
            "import Mathlib.Analysis.SpecialFunctions.Sqrt",
            "import Mathlib.Analysis.SpecialFunctions.Log.Basic",
            "import Mathlib.Analysis.SpecialFunctions.Trigonometric.Basic",
+           "import Mathlib.Analysis.SpecialFunctions.Complex.Arg",
+           "import Mathlib.Algebra.Order.Floor.Ring",
            "", "namespace Osu.GenArith", ""]
     known = {}
     cache = {}
@@ -176,14 +194,27 @@ def translate():
         fn = next((n for n in cache[rel].body if isinstance(n, ast.FunctionDef) and n.name == name), None)
         if fn is None:
             raise Unsupported(f"{name} not found in {rel}")
-        tr = Tr({}, known)
+        tr = Tr(attrs_of.get(lean_name, {}), known)
         lets = []
         for w in wanted:
-            hits = [st for st in ast.walk(fn) if isinstance(st, ast.Assign) and len(st.targets) == 1
-                    and isinstance(st.targets[0], ast.Name) and st.targets[0].id == w]
-            if len(hits) != 1:
-                raise Unsupported(f"{name}: expected exactly one assignment to {w}, found {len(hits)}")
-            lets.append((w, tr.expr(hits[0].value)))
+            if w.startswith("{"):          # the value of the entry "key" of a dict display: {"key": value}
+                key = w.strip("{}")
+                hits = [v for d in ast.walk(fn) if isinstance(d, ast.Dict)
+                        for k, v in zip(d.keys, d.values) if isinstance(k, ast.Constant) and k.value == key]
+                vals = hits
+                w = key
+            elif w.startswith("@"):        # the value assigned to <something>["key"]
+                key = w[1:]
+                vals = [st.value for st in ast.walk(fn) if isinstance(st, ast.Assign) and len(st.targets) == 1
+                        and isinstance(st.targets[0], ast.Subscript) and isinstance(st.targets[0].slice, ast.Constant)
+                        and st.targets[0].slice.value == key]
+                w = key
+            else:
+                vals = [st.value for st in ast.walk(fn) if isinstance(st, ast.Assign) and len(st.targets) == 1
+                        and isinstance(st.targets[0], ast.Name) and st.targets[0].id == w]
+            if len(vals) != 1:
+                raise Unsupported(f"{name}: expected exactly one assignment to {w}, found {len(vals)}")
+            lets.append((w, tr.expr(vals[0])))
         out.append(f"/-- `{rel}: {name}`, the assignments to {', '.join(wanted)} -/")
         out.append(f"noncomputable def {lean_name} " + " ".join(f"({a} : ℝ)" for a in args) + " : ℝ :=")
         out.append("\n".join([f"  let {w} := {ex}" for w, ex in lets[:-1]] + ["  " + lets[-1][1]]))
